@@ -286,9 +286,22 @@ local _orig_type = type
 local _orig_unpack = unpack
 local _orig_xpcall = xpcall
 
+-- An exception raised by a Python helper arrives as the exception object.
+-- Code from pages only ever gets its message: the object (and what hangs off
+-- it: sockets, connection pools, ...) stays out of the sandbox.
+local function _error_value(e)
+    if _orig_type(e) == "userdata" then
+        return _orig_tostring(e)
+    end
+    return e
+end
+
 local function _rethrow_timeout(ok, ...)
-    if not ok and _lua_timed_out then
-        _orig_error("Lua timeout error", 0)
+    if not ok then
+        if _lua_timed_out then
+            _orig_error("Lua timeout error", 0)
+        end
+        return ok, _error_value((...))
     end
     return ok, ...
 end
@@ -304,7 +317,7 @@ local function _sandbox_xpcall(f, handler)
         if _lua_timed_out then
             return e
         end
-        return handler(e)
+        return handler(_error_value(e))
     end))
 end
 
